@@ -440,8 +440,16 @@ class C04(Prop):
     g = tv.SpecGen(rng)
     made = 0
     while made < n:
+      extra_values, fixed_order = [], False
       if rng.chance(0.07):
         child, base = tv.frozen_pair(g)        # frozen x frozen pairs (mostly over an Enum base)
+      elif rng.chance(0.05):
+        # single-dynamic-field schema against the schema-less Dict(), bare or nested
+        child, base, extra_values = tv.free_dict_pair(g)
+      elif rng.chance(0.05):
+        # Enum child over a constrained non-Enum base, candidates inside and outside the constraint
+        child, base = tv.enum_over_base_pair(g)
+        fixed_order = True
       elif rng.chance(0.04):
         child, base = tv.tuple_pair(g)         # fixed tuple over variable tuple at the size bounds
       else:
@@ -460,8 +468,8 @@ class C04(Prop):
           made += 1
           yield {'a': child, 'b': base, 'values': []}     # constructor-rejected stream
         continue
-      a, b = (child, base) if rng.chance(0.6) else (base, child)
-      values = g.boundary(a) + g.boundary(b) + [['N'], ['M']] + copy.deepcopy(rng.sample(tv.WRONG, 2))
+      a, b = (child, base) if (fixed_order or rng.chance(0.6)) else (base, child)
+      values = extra_values + g.boundary(a) + g.boundary(b) + [['N'], ['M']] + copy.deepcopy(rng.sample(tv.WRONG, 2))
       seen, uniq = set(), []
       for v in values:
         key = json.dumps(v)
@@ -696,6 +704,9 @@ class C04(Prop):
       return 'default-not-revalidated'
     if dict_default_gap(sb, sc):
       return 'dict-field-default-ignored'
+    if any(c[0] != 'union' and b[0] == 'union' and any(x[0] == c[0] and x[-1][2] for x in b[1])
+           for c, b in aligned(sc, sb)):
+      return 'frozen-union-candidate-ignored'       # F292: the frozen-base guard skips the resolved candidate
     if union_int_and_float(sb) and any(x[0] in ('i', 'b', 'f', 's') for x in vat):
       return 'union-dispatches-by-type'
     for d in spec_atoms(sc, True, []):
